@@ -332,7 +332,34 @@ static void fam(Toks& tk, Out& out, bool solve)
   }
 }
 
+// family "markowitz": n L bits[n*n] — the real DiagonalMarkowitzReorder on a 0/1 pattern; oracle: the
+// result is a permutation of 0..n-1 (whatever pivot heuristic the routine uses)
+template<class IM>
+static void markowitz_case(std::size_t n, const std::vector<long long>& bits, Out& out)
+{
+  IM pat(n, n, 0);
+  for (std::size_t i = 0; i < n; ++i)
+    for (std::size_t j = 0; j < n; ++j)
+      pat[i][j] = (int)bits[i * n + j];
+  auto perm = micm::DiagonalMarkowitzReorder<IM>(pat);
+  out.is(perm);
+  std::vector<int> seen(n, 0);
+  bool ok = perm.size() == n;
+  for (auto p : perm)
+    if (p >= n || seen[p]++)
+      ok = false;
+  if (!ok)
+    out.tok("ORACLE_REORDERING_NOT_A_PERMUTATION");
+}
+static void fam_markowitz(Toks& tk, Out& out)
+{
+  std::size_t n = tk.i();
+  long long L = tk.i();
+  auto bits = tk.ints(n * n);
+  VERIF_DISPATCH_L(L, (markowitz_case<micm::Matrix<int>>(n, bits, out)), (markowitz_case<micm::VectorMatrix<int, LL>>(n, bits, out)));
+}
+
 int main()
 {
-  return vio::run({ { "lu", [](Toks& t, Out& o) { fam(t, o, false); } }, { "linsolve", [](Toks& t, Out& o) { fam(t, o, true); } } });
+  return vio::run({ { "markowitz", fam_markowitz }, { "lu", [](Toks& t, Out& o) { fam(t, o, false); } }, { "linsolve", [](Toks& t, Out& o) { fam(t, o, true); } } });
 }
